@@ -32,7 +32,7 @@ func concFiles() map[string]string {
 		"shuffle.tw":         "@each(n in items.shuffle()){{ n }},@end",
 		"plain.tw":           "plain {{ gid + 1 }} {{ who }}",
 		"chain.tw":           "@if(zero)a@elseif(zero)b@elseif(zero == 1)c@elseif(zero)d@else e{{ who }}@end|@if(zero)x@elseif(gid > 1000)y@elseif(zero)z@else w@end",
-		"errors/500.tw":      "<custom error page>",
+		"errors/500.tw":      "{{ ep = 1 }}{{ ept = \"s\" }}<custom error page>@if(true){{ ep = 2 }}@end",
 		"errors/broken.tw":   "broken error page {{ reason }}",
 		"ptr.tw":             "{{ acct.owner }} {{ acct.plan.name }} {{ acct.plan.seats }} {{ acct.next.owner }}",
 		"joinok.tw":          "{{ items.join(\"-\") }}|{{ items.join(who) }}|{{ [who, who, who].join(\", \") }}|{{ gid.decimal(\".\", 3) }}",
@@ -631,6 +631,15 @@ func coldBurst(c *core.Ctx) {
 		"@insert(\"a\", 1)@reserve(\"b\")@component(\"c\")@dump(gid) {{ who.upper() }}",
 		"x {{ who }}\n{{ gid / zero }}",
 		"@each(i in items)@continueIf(i == 1)@breakIf(i == 2){{ i }}@end",
+		// string literals with escaped quotes of either kind; inputs that fail to parse, the message naming directives and keywords
+		"{{ \"say \\\"hi\\\" \" + who }} {{ 'it\\'s ' + who }}",
+		"{{ 'a\\'b' }}{{ \"c\\\"d\" }}@if(true){{ \"e\\\"\" }}@end",
+		"@if(true)never closed {{ who }}",
+		"@each(x items)y@end",
+		"@for(k = 0; k < 2)y@end {{ gid }}",
+		"@if(true)a@else b@elseif(true)c@end",
+		"{{ gid in }}",
+		"@component(\"x\", 5) {{ nil true false }}",
 	}
 	abs, _ := filepath.Abs("conc/plain.tw")
 	const G = 16
